@@ -6,14 +6,13 @@ Import ListNotations.
 Open Scope string_scope.
 Open Scope list_scope.
 
-(** ** queries as the parser delivers them, without directives on field selections (decidable) *)
+(** ** queries as the parser delivers them: a selection without a selection set carries no sub-selections
+    (decidable; directives are unrestricted) *)
 Fixpoint qwf (n : node) : bool :=
   match n with
-  | NField _ _ _ _ dirs hs subs =>
-      match dirs with [] => true | _ => false end && (hs || match subs with [] => true | _ => false end) && forallb qwf subs
+  | NField _ _ _ _ _ hs subs => (hs || match subs with [] => true | _ => false end) && forallb qwf subs
   | NFrag _ _ subs => forallb qwf subs
   end.
-
 
 (** ** well-formed normalised queries (decidable; evaluated on every flattened query by the harness) *)
 Definition alias_ok (al nm : string) : bool :=
@@ -24,7 +23,7 @@ Definition alias_ok (al nm : string) : bool :=
 Fixpoint node_ok (g : gschema) (ctx : rtype) (n : node) {struct n} : bool :=
   match ctx, n with
   | RObj ty, NField al nm _ _ dirs hs subs =>
-      alias_ok al nm && match dirs with [] => true | _ => false end &&
+      alias_ok al nm && should_include dirs &&
       if String.eqb nm "__typename" then negb hs && match subs with [] => true | _ => false end
       else match find_gfield g ty nm with
            | None => false
